@@ -92,7 +92,7 @@ contract(
               "implies": "mirroring keeps every filled entry and fills every empty one from its transposed partner"},
 )
 
-_OCC = "sumto({t}, lambda k: (1 if no_regularization_index_list[k] == a else 0))"
+_OCC = "sumto({t}, lambda k: (value if no_regularization_index_list[k] == a else 0))"
 _UNIQ = "forall(0, L, lambda k2: k2 == k or no_regularization_index_list[k2] != no_regularization_index_list[k])"
 contract(
     VU + "curvature_matrix_with_added_to_diag_from", props=["C04"],
@@ -106,14 +106,14 @@ contract(
              # only the diagonal changes ...
              "forall(0, n0, lambda a: forall(0, n1, lambda b: implies(a != b, result[a, b] == old(curvature_matrix)[a, b])))",
              # ... by `value` per listed occurrence of the parameter (nothing on parameters that are not listed)
-             "forall(0, n0, lambda a: implies(a < n1, result[a, a] == old(curvature_matrix)[a, a] + value * " + _OCC.format(t="L") + "))",
+             "forall(0, n0, lambda a: implies(a < n1, result[a, a] == old(curvature_matrix)[a, a] + " + _OCC.format(t="L") + "))",
              "forall(0, n0, lambda a: implies(a < n1 and forall(0, L, lambda k: no_regularization_index_list[k] != a),"
              " result[a, a] == old(curvature_matrix)[a, a]))",
              "forall(0, L, lambda k: implies(" + _UNIQ + ", result[ix[k], ix[k]] == old(curvature_matrix)[ix[k], ix[k]] + value))"],
     loops={0: {"inv": [
         "0 <= pos_L0 and pos_L0 <= L",
         "forall(0, n0, lambda a: forall(0, n1, lambda b: implies(a != b, curvature_matrix[a, b] == old(curvature_matrix)[a, b])))",
-        "forall(0, n0, lambda a: implies(a < n1, curvature_matrix[a, a] == old(curvature_matrix)[a, a] + value * " + _OCC.format(t="pos_L0") + "))",
+        "forall(0, n0, lambda a: implies(a < n1, curvature_matrix[a, a] == old(curvature_matrix)[a, a] + " + _OCC.format(t="pos_L0") + "))",
         "forall(0, n0, lambda a: implies(a < n1 and forall(0, pos_L0, lambda k: no_regularization_index_list[k] != a),"
         " curvature_matrix[a, a] == old(curvature_matrix)[a, a]))",
         "forall(0, L, lambda k: implies(" + _UNIQ + ", curvature_matrix[ix[k], ix[k]] == old(curvature_matrix)[ix[k], ix[k]] + (value if k < pos_L0 else 0)))",
@@ -266,8 +266,15 @@ def _wgt_py(d, s, y, x):
     return float(d[y, x] / s[y, x] ** 2) if s[y, x] != 0 else 0.0
 
 
-# noise-weighted data value of native pixel (y, x); zero on pixels without noise value (masked)
-macro("c04_wgt", ["d", "s", "y", "x"], "(d[y, x] / s[y, x] ** 2 if s[y, x] != 0 else 0)", py=_wgt_py)
+# noise-weighted data value of native pixel (y, x); zero on pixels without noise value (masked).  A spec function rather than a
+# macro so that the sums below see one atom per pixel instead of a non-linear quotient (the definition is unfolded by its trigger)
+spec_fn(
+    "c04_wgt", params=[("d", "real[2]"), ("s", "real[2]"), ("y", "int"), ("x", "int")], ret="real",
+    let={"H": "min(d.shape[0], s.shape[0])", "W": "min(d.shape[1], s.shape[1])"},
+    axioms=["forall(0, H, lambda y: forall(0, W, lambda x: c04_wgt(d, s, y, x) == (d[y, x] / s[y, x] ** 2 if s[y, x] != 0 else 0),"
+            " pat=((c04_wgt(d, s, y, x), s[y, x]),)))"],      # unfolded only where the noise value of that pixel is looked at
+    py=_wgt_py, doc="(data / noise^2)[y, x], zero where the native noise map carries no value",
+)
 
 _NAT = {"H": "noise_map_native.shape[0]", "W": "noise_map_native.shape[1]", "Ky": "kernel_native.shape[0]", "Kx": "kernel_native.shape[1]",
         "hy": "kernel_native.shape[0] // 2", "hx": "kernel_native.shape[1] // 2", "N": "native_index_for_slim_index.shape[0]",
@@ -294,7 +301,10 @@ contract(
         2: {"inv": ["value == " + _WD.format(na="k0_y", y="nfs[ip0, 0]", x="nfs[ip0, 1]")
                     + " + " + _WDI.format(nb="k0_x", a="k0_y", y="nfs[ip0, 0]", x="nfs[ip0, 1]")],
             # stepping stones: the weight read by the code is the noise-weighted data value; it is NaN exactly on zero noise
-            "assert_at": {1: ["ip0_y + k0_y + kernel_shift_y == nfs[ip0, 0] + k0_y - hy and ip0_x + k0_x + kernel_shift_x == nfs[ip0, 1] + k0_x - hx",
+            "assert_at": {0: [_WDI.format(nb="k0_x + 1", a="k0_y", y="nfs[ip0, 0]", x="nfs[ip0, 1]") + " == "
+                              + _WDI.format(nb="k0_x", a="k0_y", y="nfs[ip0, 0]", x="nfs[ip0, 1]") + " + kernel_native[k0_y, k0_x]"
+                              " * c04_wgt(image_native, noise_map_native, nfs[ip0, 0] + k0_y - hy, nfs[ip0, 1] + k0_x - hx)"],
+                          1: ["ip0_y + k0_y + kernel_shift_y == nfs[ip0, 0] + k0_y - hy and ip0_x + k0_x + kernel_shift_x == nfs[ip0, 1] + k0_x - hx",
                               "np.isnan(weight_value) == (noise_map_native[nfs[ip0, 0] + k0_y - hy, nfs[ip0, 1] + k0_x - hx] == 0)",
                               "(0 if np.isnan(weight_value) else weight_value)"
                               " == c04_wgt(image_native, noise_map_native, nfs[ip0, 0] + k0_y - hy, nfs[ip0, 1] + k0_x - hx)"]}},
@@ -496,6 +506,10 @@ spec_fn(
     doc="start of row i in the concatenated preload: sum of the lengths of the rows before it",
 )
 
+# (two inequalities instead of an equation: z3's preprocessor would solve an equation for the loop counter and thereby destroy the
+#  `k + 1` terms the sum recurrences are triggered on)
+_CIDX = ("curvature_index <= c04_off(curvature_lengths, data_0) + data_1_index"
+         " and curvature_index >= c04_off(curvature_lengths, data_0) + data_1_index")
 _PRE3 = {"curvature_preload": "real[1]", "curvature_indexes": "int[1]", "curvature_lengths": "int[1]"}
 _PREREQ = ["forall(0, N, lambda d: curvature_lengths[d] >= 0)",
            "curvature_preload.shape[0] >= c04_off(curvature_lengths, N)", "curvature_indexes.shape[0] >= c04_off(curvature_lengths, N)",
@@ -540,7 +554,7 @@ contract(
              "forall(0, P, lambda a: forall(0, P, lambda b: result[a, b] == result[b, a]))"],
     loops={
         0: {"inv": ["curvature_index == c04_off(curvature_lengths, data_0)", _FA.format(e=_GD("data_0"))]},
-        1: {"inv": ["curvature_index == c04_off(curvature_lengths, data_0) + data_1_index", _FA.format(e=_ACC1)],
+        1: {"inv": [_CIDX, _FA.format(e=_ACC1)],
             "assert_at": {0: [_STEP],
                           3: ["data_1 == curvature_indexes[c04_off(curvature_lengths, data_0) + data_1_index]"
                               " and w_tilde_value == curvature_preload[c04_off(curvature_lengths, data_0) + data_1_index]",
@@ -553,7 +567,9 @@ contract(
                               " * curvature_preload[c04_off(curvature_lengths, data_0) + data_1_index]"
                               " * c04_map(" + _U3 + ", curvature_indexes[c04_off(curvature_lengths, data_0) + data_1_index], j)))"]}},
         2: {"inv": [_FA.format(e=_ACC2)]},
-        3: {"inv": [_FA.format(e=_ACC3)]},
+        3: {"inv": [_FA.format(e=_ACC3)],
+            "assert_at": {2: ["forall(0, P, lambda j: c04_mapc(" + _U3 + ", data_1, j, pix_1_index + 1) == c04_mapc(" + _U3 + ", data_1, j, pix_1_index)"
+                              " + (data_weights[data_1, pix_1_index] if data_to_pix_unique[data_1, pix_1_index] == j else 0))"]}},
         4: {"inv": ["forall(0, P, lambda a: forall(0, P, lambda b: curvature_matrix[a, b] == (" + _SYM + " if a < i and b >= a else " + _GIJ.format(i="a", j="b") + ")))"]},
         5: {"inv": ["forall(0, P, lambda a: forall(0, P, lambda b: curvature_matrix[a, b] == (" + _SYM
                     + " if (a < i and b >= a) or (a == i and i <= b and b < j) else " + _GIJ.format(i="a", j="b") + ")))"]},
@@ -620,7 +636,7 @@ contract(
              "forall(0, P0, lambda i: forall(0, P1, lambda j: result[i, j] == " + _OGD("N") + "))"],
     loops={
         0: {"inv": ["curvature_index == c04_off(curvature_lengths, data_0)", _OFA.format(e=_OGD("data_0"))]},
-        1: {"inv": ["curvature_index == c04_off(curvature_lengths, data_0) + data_1_index", _OFA.format(e=_OACC1)],
+        1: {"inv": [_CIDX, _OFA.format(e=_OACC1)],
             "assert_at": {0: [_STEP],
                           3: ["data_1 == curvature_indexes[c04_off(curvature_lengths, data_0) + data_1_index]"
                               " and w_tilde_value == curvature_preload[c04_off(curvature_lengths, data_0) + data_1_index]",
@@ -629,7 +645,9 @@ contract(
                               "forall(0, P0, lambda i: forall(0, P1, lambda j: " + _gin(_T0, _T1, "data_0", "data_1_index + 1") + " == "
                               + _gin(_T0, _T1, "data_0", "data_1_index") + " + " + _OSTEPT + "))"]}},
         2: {"inv": [_OFA.format(e=_OACC2)]},
-        3: {"inv": [_OFA.format(e=_OACC3)]},
+        3: {"inv": [_OFA.format(e=_OACC3)],
+            "assert_at": {2: ["forall(0, P1, lambda j: c04_mapc(" + _T1 + ", data_1, j, pix_1_index + 1) == c04_mapc(" + _T1 + ", data_1, j, pix_1_index)"
+                              " + (data_weights_1[data_1, pix_1_index] if data_to_pix_unique_1[data_1, pix_1_index] == j else 0))"]}},
     },
     sentence={"sumto": "the off-diagonal block of two mappers is M0^T U M1 for the sparse upper-triangular overlap matrix U of the preload"},
 )
@@ -647,3 +665,198 @@ def _g_offd(rng, tier):
 
 
 CONTRACTS[IU + "curvature_matrix_off_diags_via_w_tilde_curvature_preload_imaging_from"].gen = _g_offd
+
+# ------------------------------------------------------------------------------------------------
+# mapper x linear-function off-diagonal blocks
+# ------------------------------------------------------------------------------------------------
+_FT = ["{i}.shape[0] == {n}", "{k}.shape[0] == {n}", "{l}.shape[0] == {n}",
+       "forall(0, {n}, lambda s: 0 <= {l}[s] and {l}[s] <= {i}.shape[1] and {l}[s] <= {k}.shape[1])",
+       "forall(0, {n}, lambda s: forall(0, {l}[s], lambda k: 0 <= {i}[s, k] and {i}[s, k] < {n}))"]
+_FTY = {"image_frame_1d_lengths": "int[1]", "image_frame_1d_indexes": "int[2]", "image_frame_1d_kernels": "real[2]"}
+_FTREQ = [x.format(i="image_frame_1d_indexes", k="image_frame_1d_kernels", l="image_frame_1d_lengths", n="N") for x in _FT]
+
+# (B^T cw)[d, l] over the non-zero entries of column d of the blurring operator (frame tables): sum_k ker[d,k] * cw[idx[d,k], l]
+_BT = "sumto({n}, lambda k: image_frame_1d_kernels[{d}, k] * {cw}[image_frame_1d_indexes[{d}, k], {l}])"
+_BTM = lambda n, d, l: _BT.format(n=n, d=d, l=l, cw="curvature_weights_matrix")
+contract(
+    IU + "data_linear_func_matrix_from", props=["C04"],
+    types={"curvature_weights_matrix": "real[2]", **_FTY}, returns="real[2]",
+    let={"N": "curvature_weights_matrix.shape[0]", "Lf": "curvature_weights_matrix.shape[1]"},
+    requires=_FTREQ,
+    ensures=["result.shape[0] == N", "result.shape[1] == Lf",
+             "forall(0, N, lambda d: forall(0, Lf, lambda l: result[d, l] == " + _BTM("image_frame_1d_lengths[d]", "d", "l") + "))"],
+    loops={
+        0: {"inv": ["forall(0, data_0, lambda d: forall(0, Lf, lambda l: data_linear_func_matrix_dict[d, l] == " + _BTM("image_frame_1d_lengths[d]", "d", "l") + "))",
+                    "forall(data_0, N, lambda d: forall(0, Lf, lambda l: data_linear_func_matrix_dict[d, l] == 0))"]},
+        1: {"inv": ["forall(0, data_0, lambda d: forall(0, Lf, lambda l: data_linear_func_matrix_dict[d, l] == " + _BTM("image_frame_1d_lengths[d]", "d", "l") + "))",
+                    "forall(data_0 + 1, N, lambda d: forall(0, Lf, lambda l: data_linear_func_matrix_dict[d, l] == 0))",
+                    "forall(0, Lf, lambda l: data_linear_func_matrix_dict[data_0, l] == " + _BTM("psf_index", "data_0", "l") + ")"]},
+        2: {"inv": ["forall(0, data_0, lambda d: forall(0, Lf, lambda l: data_linear_func_matrix_dict[d, l] == " + _BTM("image_frame_1d_lengths[d]", "d", "l") + "))",
+                    "forall(data_0 + 1, N, lambda d: forall(0, Lf, lambda l: data_linear_func_matrix_dict[d, l] == 0))",
+                    "forall(0, linear_index, lambda l: data_linear_func_matrix_dict[data_0, l] == " + _BTM("psf_index + 1", "data_0", "l") + ")",
+                    "forall(linear_index, Lf, lambda l: data_linear_func_matrix_dict[data_0, l] == " + _BTM("psf_index", "data_0", "l") + ")"]},
+    },
+    sentence={"sumto": "the data x linear-function matrix is the transposed blurring operator of the frame tables applied to the noise-weighted "
+                       "operated values: sum over the pixels t that pixel d blurs into of K[d->t] * cw[t, l]"},
+)
+
+_OD1 = "sumto({n}, lambda d: c04_map(" + _U3 + ", d, p) * data_linear_func_matrix[d, l])"
+contract(
+    IU + "curvature_matrix_off_diags_via_data_linear_func_matrix_from", props=["C04"],
+    types={"data_linear_func_matrix": "real[2]", **_UTY, "pix_pixels": "int"}, returns="real[2]",
+    let={"N": "data_weights.shape[0]", "Lf": "data_linear_func_matrix.shape[1]", "P": "pix_pixels"},
+    requires=["pix_pixels >= 0", "data_linear_func_matrix.shape[0] == N"] + _ut("data_to_pix_unique", "data_weights", "pix_lengths", "N", "P"),
+    ensures=["result.shape[0] == P", "result.shape[1] == Lf",
+             "forall(0, P, lambda p: forall(0, Lf, lambda l: result[p, l] == " + _OD1.format(n="N") + "))"],
+    loops={
+        0: {"inv": ["forall(0, P, lambda p: forall(0, Lf, lambda l: off_diag[p, l] == " + _OD1.format(n="data_0") + "))"]},
+        1: {"inv": ["forall(0, P, lambda p: forall(0, Lf, lambda l: off_diag[p, l] == " + _OD1.format(n="data_0")
+                    + " + c04_mapc(" + _U3 + ", data_0, p, pix_0_index) * data_linear_func_matrix[data_0, l]))"]},
+        2: {"inv": ["forall(0, P, lambda p: forall(0, Lf, lambda l: off_diag[p, l] == " + _OD1.format(n="data_0")
+                    + " + c04_mapc(" + _U3 + ", data_0, p, (pix_0_index + 1 if l < linear_index else pix_0_index)) * data_linear_func_matrix[data_0, l]))"],
+            "assert_at": {0: ["forall(0, P, lambda p: c04_mapc(" + _U3 + ", data_0, p, pix_0_index + 1) == c04_mapc(" + _U3 + ", data_0, p, pix_0_index)"
+                              " + (data_weights[data_0, pix_0_index] if data_to_pix_unique[data_0, pix_0_index] == p else 0))"]}},
+    },
+    sentence={"sumto": "the mapper x linear-function block is the transposed mapping matrix applied to the data x linear-function matrix: sum_d M[d,p] * A[d,l]"},
+)
+
+_BTC = lambda n, d, l: _BT.format(n=n, d=d, l=l, cw="curvature_weights")
+_OD2 = "sumto({n}, lambda d: c04_map(" + _U3 + ", d, p) * " + _BTC("image_frame_1d_lengths[d]", "d", "l") + ")"
+contract(
+    IU + "curvature_matrix_off_diags_via_mapper_and_linear_func_curvature_vector_from", props=["C04"],
+    types={**_UTY, "pix_pixels": "int", "curvature_weights": "real[2]", **_FTY}, returns="real[2]",
+    let={"N": "data_weights.shape[0]", "Lf": "curvature_weights.shape[1]", "P": "pix_pixels"},
+    requires=["pix_pixels >= 0", "curvature_weights.shape[0] == N"] + _ut("data_to_pix_unique", "data_weights", "pix_lengths", "N", "P") + _FTREQ,
+    ensures=["result.shape[0] == P", "result.shape[1] == Lf",
+             "forall(0, P, lambda p: forall(0, Lf, lambda l: result[p, l] == " + _OD2.format(n="N") + "))"],
+    loops={
+        0: {"inv": ["forall(0, P, lambda p: forall(0, Lf, lambda l: off_diag[p, l] == " + _OD2.format(n="data_0") + "))"]},
+        1: {"inv": ["forall(0, P, lambda p: forall(0, Lf, lambda l: off_diag[p, l] == " + _OD2.format(n="data_0")
+                    + " + c04_mapc(" + _U3 + ", data_0, p, pix_0_index) * " + _BTC("image_frame_1d_lengths[data_0]", "data_0", "l") + "))"]},
+        2: {"inv": ["forall(0, P, lambda p: forall(0, Lf, lambda l: off_diag[p, l] == " + _OD2.format(n="data_0")
+                    + " + c04_mapc(" + _U3 + ", data_0, p, pix_0_index) * " + _BTC("image_frame_1d_lengths[data_0]", "data_0", "l")
+                    + " + (data_weights[data_0, pix_0_index] if data_to_pix_unique[data_0, pix_0_index] == p else 0) * " + _BTC("psf_index", "data_0", "l") + "))"]},
+    },
+    sentence={"sumto": "the mapper x linear-function block is M^T B^T cw: sum_d M[d,p] * sum over the pixels t that d blurs into of K[d->t] * cw[t, l]"},
+)
+
+
+def _ftables(rng, n, kmax=3):
+    C = rng.randint(1, kmax)
+    idx = -np.ones((n, C), dtype=int)
+    ker = -np.ones((n, C))
+    ln = np.zeros(n, dtype=int)
+    for s_ in range(n):
+        ln[s_] = rng.randint(0, C)
+        for k in range(ln[s_]):
+            idx[s_, k] = rng.randrange(n)
+            ker[s_, k] = rng.choice([rng.uniform(-2, 2), 0.0, 1.0])
+    return idx, ker, ln
+
+
+def _g_dlf(rng, tier):
+    for _ in range(gens.budget(tier, 200, 2000)):
+        n, lf = rng.randint(0, 5), rng.randint(0, 3)
+        idx, ker, ln = _ftables(rng, n)
+        yield {"curvature_weights_matrix": gens.reals(rng, (n, lf), -3, 3), "image_frame_1d_lengths": ln,
+               "image_frame_1d_indexes": idx, "image_frame_1d_kernels": ker}
+
+
+def _g_od1(rng, tier):
+    for _ in range(gens.budget(tier, 200, 2000)):
+        n, p, lf = rng.randint(0, 5), rng.randint(0, 4), rng.randint(0, 3)
+        u, w, pl = _utables(rng, n, p)
+        yield {"data_linear_func_matrix": gens.reals(rng, (n, lf), -3, 3), "data_to_pix_unique": u, "data_weights": w,
+               "pix_lengths": pl, "pix_pixels": p}
+
+
+def _g_od2(rng, tier):
+    for _ in range(gens.budget(tier, 200, 2000)):
+        n, p, lf = rng.randint(0, 5), rng.randint(0, 4), rng.randint(0, 3)
+        u, w, pl = _utables(rng, n, p)
+        idx, ker, ln = _ftables(rng, n)
+        yield {"data_to_pix_unique": u, "data_weights": w, "pix_lengths": pl, "pix_pixels": p,
+               "curvature_weights": gens.reals(rng, (n, lf), -3, 3), "image_frame_1d_lengths": ln,
+               "image_frame_1d_indexes": idx, "image_frame_1d_kernels": ker}
+
+
+CONTRACTS[IU + "data_linear_func_matrix_from"].gen = _g_dlf
+CONTRACTS[IU + "curvature_matrix_off_diags_via_data_linear_func_matrix_from"].gen = _g_od1
+CONTRACTS[IU + "curvature_matrix_off_diags_via_mapper_and_linear_func_curvature_vector_from"].gen = _g_od2
+
+# ------------------------------------------------------------------------------------------------
+# the w-tilde preload: exact sparse encoding of the upper triangle of W (diagonal halved), every non-zero entry whatever its sign
+# ------------------------------------------------------------------------------------------------
+_INTV = "{x} == toreal(toint({x}))"
+_LOK = "forall(0, N, lambda j: L[j] >= 0 and " + _INTV.format(x="L[j]") + ")"
+spec_fn(
+    "c04_psum", params=[("L", "real[1]"), ("i", "int")], ret="real", let={"N": "L.shape[0]"},
+    axioms=["c04_psum(L, 0) == 0",
+            "forall(0, N, lambda i: c04_psum(L, i + 1) == c04_psum(L, i) + L[i], pat=c04_psum(L, i + 1))"],
+    lemmas=[dict(name="mono", induct="n", lo=0, hi="N",
+                 stmt="implies(" + _LOK + ", forall(0, n + 1, lambda k1: 0 <= c04_psum(L, k1) and c04_psum(L, k1) <= c04_psum(L, n),"
+                      " pat=((c04_psum(L, k1), c04_psum(L, n)),)))"),
+            dict(name="integral", induct="n", lo=0, hi="N",
+                 stmt="implies(" + _LOK + ", " + _INTV.format(x="c04_psum(L, n)") + ")")],
+    py=lambda L, i: float(np.sum(np.asarray(L, dtype=float)[:i])),
+    doc="prefix sums of a float array of lengths (np.sum of the preload lengths; offsets of the rows in the concatenated preload)",
+)
+
+# W'[p,q]: the stored value -- the overlap, halved on the diagonal (the curvature routine adds the transpose)
+macro("c04_wh", ["V", "K", "nfs", "p", "q"], "(c04_w(V, K, nfs, p, q) / 2 if p == q else c04_w(V, K, nfs, p, q))",
+      py=lambda V, K, nfs, p, q: (0.5 if p == q else 1.0) * _ov_py(V, K, int(nfs[p, 0]), int(nfs[p, 1]), int(nfs[q, 0]), int(nfs[q, 1]), K.shape[0], 0))
+
+_WH = "c04_wh(noise_map_native, kernel_native, nfs, {p}, {q})"
+
+
+def _row(pre, idx, p, n, qlim, pos="{c}"):
+    """the first n entries of row p list, in increasing order of the partner q, exactly the q in [p, qlim) with W'[p,q] != 0"""
+    P = lambda c: pos.format(c=c)
+    i1 = idx + "[" + P("c") + "]"
+    return [
+        "forall(0, %s, lambda c: %s and %s <= toint(%s) and toint(%s) < %s and %s[%s] == %s and %s[%s] != 0)" % (
+            n, _INTV.format(x=i1), p, i1, i1, qlim, pre, P("c"), _WH.format(p=p, q="toint(" + i1 + ")"), pre, P("c")),
+        "forall(0, %s, lambda c1: forall(c1 + 1, %s, lambda c2: %s[%s] < %s[%s]))" % (n, n, idx, P("c1"), idx, P("c2")),
+        "forall(%s, %s, lambda q: implies(%s != 0, exists(0, %s, lambda c: %s[%s] == q)))" % (p, qlim, _WH.format(p=p, q="q"), n, idx, P("c")),
+    ]
+
+
+def _rows(lim):
+    """rows p < lim of the temporary tables are final"""
+    out = []
+    for r in _row("curvature_preload_tmp", "curvature_indexes_tmp", "p", "toint(curvature_lengths[p])", "N", pos="p, {c}"):
+        out.append("forall(0, %s, lambda p: %s)" % (lim, r))
+    return out
+
+
+_LENOK = ("forall(0, {lim}, lambda p: " + _INTV.format(x="{L}[p]") + " and 0 <= {L}[p] and {L}[p] <= N - p)")
+_SORTED = ("forall(0, N, lambda p: forall(p + 1, N, lambda q: nfs[p, 0] < nfs[q, 0] or (nfs[p, 0] == nfs[q, 0] and nfs[p, 1] < nfs[q, 1])))")
+_INWIN = "(nfs[{q}, 0] - nfs[ip0, 0] <= 2 * hy and nfs[{q}, 1] - nfs[ip0, 1] <= 2 * hx and nfs[ip0, 1] - nfs[{q}, 1] <= 2 * hx)"
+_RANK = "((nfs[{q}, 0] - nfs[ip0, 0]) * (4 * hx + 1) + nfs[{q}, 1] - nfs[ip0, 1] + 2 * hx)"
+_POS = "toint(c04_psum({L}, {p})) + {c}"
+_RES_ROW = _row("result[0]", "result[1]", "p", "toint(result[2][p])", "N", pos=_POS.format(L="result[2]", p="p", c="{c}"))
+_COPIED = ("forall(0, {lim}, lambda p: forall(0, toint(curvature_lengths[p]), lambda c:"
+           " curvature_preload[" + _POS.format(L="curvature_lengths", p="p", c="c") + "] == curvature_preload_tmp[p, c]"
+           " and curvature_indexes[" + _POS.format(L="curvature_lengths", p="p", c="c") + "] == curvature_indexes_tmp[p, c]))")
+contract(
+    IU + "w_tilde_curvature_preload_imaging_from", props=["C04"],
+    types=_WT3, returns="(real[1],real[1],real[1])", let=_NAT,
+    requires=_NATREQ + [_SORTED],      # pixels listed in row-major order, as native_index_for_slim_index_2d_from (C01) produces them
+    ensures=["result[2].shape[0] == N", _LENOK.format(lim="N", L="result[2]"),
+             "toreal(result[0].shape[0]) == c04_psum(result[2], N) and result[1].shape[0] == result[0].shape[0]"]
+            + ["forall(0, N, lambda p: %s)" % r for r in _RES_ROW],
+    loops={
+        0: {"inv": [_LENOK.format(lim="ip0", L="curvature_lengths")] + _rows("ip0")},
+        1: {"inv": _rows("ip0") + ["0 <= kernel_index and kernel_index <= ip1 - ip0"]
+                   + _row("curvature_preload_tmp", "curvature_indexes_tmp", "ip0", "kernel_index", "ip1", pos="ip0, {c}")
+                   + ["forall(ip1, N, lambda q: implies(" + _INWIN.format(q="q") + ", kernel_index <= " + _RANK.format(q="q") + "))"]},
+        2: {"inv": ["toreal(index) == c04_psum(curvature_lengths, i)", _COPIED.format(lim="i")]},
+        3: {"inv": ["toreal(index) <= c04_psum(curvature_lengths, i) + data_index and toreal(index) >= c04_psum(curvature_lengths, i) + data_index",
+                    _COPIED.format(lim="i"),
+                    "forall(0, data_index, lambda c: curvature_preload[" + _POS.format(L="curvature_lengths", p="i", c="c") + "] == curvature_preload_tmp[i, c]"
+                    " and curvature_indexes[" + _POS.format(L="curvature_lengths", p="i", c="c") + "] == curvature_indexes_tmp[i, c])"]},
+    },
+    sentence={"c04_wh": "the preload is an exact sparse encoding of the upper triangle of W with the diagonal halved: row p lists, in increasing "
+                        "order of q >= p, exactly the pixel pairs with W'[p,q] != 0 -- every non-zero overlap whatever its sign -- with their values"},
+)
+_ext.PSUM.add(IU + "w_tilde_curvature_preload_imaging_from")
